@@ -2,6 +2,8 @@ package main
 
 import (
 	"fmt"
+	"os"
+	"path/filepath"
 	"strings"
 	"sync"
 	"time"
@@ -120,4 +122,74 @@ func c02SharedData(col *c02Collector, rounds, gor int) {
 		}
 	}
 	col.hit("shared-data-rounds")
+}
+
+// c02FsChurn: renders through a FileSystemLoader with two search paths and auto-reload while template files vanish
+// from the first path and come back (a deployment replacing files in place): every render returns the template's
+// text — both copies hold the same source — and nothing crashes (seeded change C02-J: a loader map written under a
+// read lock).
+func c02FsChurn(col *c02Collector, rounds int) {
+	for round := 0; round < rounds && !col.failed(); round++ {
+		root, err := os.MkdirTemp("", "c02fs-")
+		if err != nil {
+			return
+		}
+		p0, p1 := filepath.Join(root, "p0"), filepath.Join(root, "p1")
+		os.Mkdir(p0, 0o755)
+		os.Mkdir(p1, 0o755)
+		const n = 24
+		for i := 0; i < n; i++ {
+			src := fmt.Sprintf("tpl%d {{ g }}{%% if g %%}!{%% endif %%}", i)
+			os.WriteFile(filepath.Join(p0, fmt.Sprintf("t%d.twig", i)), []byte(src), 0o644)
+			os.WriteFile(filepath.Join(p1, fmt.Sprintf("t%d.twig", i)), []byte(src), 0o644)
+		}
+		eng := twig.New()
+		eng.RegisterLoader(twig.NewFileSystemLoader([]string{p0, p1}))
+		eng.SetAutoReload(true)
+		stop := make(chan struct{})
+		var churn sync.WaitGroup
+		churn.Add(1)
+		go func() {
+			defer churn.Done()
+			for k := 0; ; k++ {
+				select {
+				case <-stop:
+					return
+				default:
+				}
+				f := filepath.Join(p0, fmt.Sprintf("t%d.twig", k%n))
+				src, err := os.ReadFile(f)
+				if err == nil && len(src) > 0 {
+					os.Remove(f)
+					time.Sleep(50 * time.Microsecond)
+					// the file comes back atomically (a reader never sees a half-written template)
+					tmp := f + ".tmp"
+					os.WriteFile(tmp, src, 0o644)
+					os.Rename(tmp, f)
+				}
+			}
+		}()
+		c02Barrier(10, func(g int) {
+			defer func() {
+				if p := recover(); p != nil {
+					col.violate(c02Violation{Key: "fs-churn-panic", What: fmt.Sprint(p)})
+				}
+			}()
+			for k := 0; k < 400; k++ {
+				i := (g*7 + k) % n
+				out, err := eng.Render(fmt.Sprintf("t%d", i), map[string]interface{}{"g": g + 1})
+				want := fmt.Sprintf("tpl%d %d!", i, g+1)
+				if err != nil || out != want {
+					col.violate(c02Violation{Key: "fs-churn-wrong", What: fmt.Sprintf("render of t%d while files of the first search path are replaced: %q (%v), want %q", i, out, err, want),
+						Replay: map[string]any{"kind": "fs-churn", "round": round, "goroutine": g, "got": out, "want": want, "error": fmt.Sprint(err)}})
+					return
+				}
+			}
+			col.seen(fmt.Sprintf("fs-churn|%d|%d", round, g))
+		})
+		close(stop)
+		churn.Wait()
+		os.RemoveAll(root)
+	}
+	col.hit("fs-churn-rounds")
 }
